@@ -43,6 +43,12 @@ pub(crate) fn impl_inverse_uint_scale(n: &BigUint, scale: i64, ctx: &Context) ->
 }
 
 
+/// Verification hook: expose the initial guess of the Newton iteration
+#[cfg(bigdecimal_verif)]
+pub(crate) fn verif_make_inv_guess(bit_count: u64, scale: i64) -> BigDecimal {
+    make_inv_guess(bit_count, scale)
+}
+
 /// guess inverse based on the number of bits in the integer and decimal's scale
 fn make_inv_guess(bit_count: u64, scale: i64) -> BigDecimal {
     // scale by ln(2)
